@@ -1,0 +1,59 @@
+//go:build verif
+
+package genetics
+
+// VerifHookSet holds the observers which runtime monitors can attach to the quiescent points of an epoch turnover.
+// A nil observer is a no-op. The observers must be set before an operation starts and must guard their own state.
+type VerifHookSet struct {
+	// Speciated is invoked after an organism has been placed into a species of the population
+	Speciated func(p *Population, org *Organism)
+	// Prepared is invoked when the population was prepared for reproduction (offspring quotas are final, the parents pool is set)
+	Prepared func(p *Population, sortedSpecies []*Species, generation int)
+	// ReproduceStart is invoked when reproduction of the species starts
+	ReproduceStart func(s *Species, p *Population, generation int)
+	// ReproduceEnd is invoked when reproduction of the species completed successfully
+	ReproduceEnd func(s *Species, p *Population, babies []*Organism)
+	// InnovationStored is invoked after innovation was appended to the innovations record of the population
+	InnovationStored func(p *Population, innovation Innovation)
+	// Yield is invoked between the scan of innovations record and issue of the new innovation number / node ID
+	Yield func(site string)
+}
+
+// VerifHooks the active hooks
+var VerifHooks VerifHookSet
+
+func verifSpeciated(p *Population, org *Organism) {
+	if VerifHooks.Speciated != nil {
+		VerifHooks.Speciated(p, org)
+	}
+}
+
+func verifPrepared(p *Population, sortedSpecies []*Species, generation int) {
+	if VerifHooks.Prepared != nil {
+		VerifHooks.Prepared(p, sortedSpecies, generation)
+	}
+}
+
+func verifReproduceStart(s *Species, p *Population, generation int) {
+	if VerifHooks.ReproduceStart != nil {
+		VerifHooks.ReproduceStart(s, p, generation)
+	}
+}
+
+func verifReproduceEnd(s *Species, p *Population, babies []*Organism) {
+	if VerifHooks.ReproduceEnd != nil {
+		VerifHooks.ReproduceEnd(s, p, babies)
+	}
+}
+
+func verifInnovationStored(p *Population, innovation Innovation) {
+	if VerifHooks.InnovationStored != nil {
+		VerifHooks.InnovationStored(p, innovation)
+	}
+}
+
+func verifYield(site string) {
+	if VerifHooks.Yield != nil {
+		VerifHooks.Yield(site)
+	}
+}
